@@ -172,7 +172,13 @@ func (r *roundRobinSelector) AddNode(node *databasev1.Node) {
 	}
 	r.mu.Lock()
 	defer r.mu.Unlock()
-	r.nodes = append(r.nodes, node.Metadata.Name)
+	name := node.Metadata.Name
+	for _, n := range r.nodes {
+		if n == name {
+			return
+		}
+	}
+	r.nodes = append(r.nodes, name)
 	sort.StringSlice(r.nodes).Sort()
 }
 
